@@ -6,6 +6,7 @@ import (
 	"fmt"
 	"io"
 	"strings"
+	"testing/iotest"
 
 	"golang.org/x/crypto/openpgp"
 	"golang.org/x/crypto/openpgp/armor"
@@ -142,6 +143,23 @@ var clearsigImpl = map[string]core.Adapter{
 		case "accept":
 			if res != want {
 				return "FAIL valid document not read faithfully: " + clipStr(res, 200)
+			}
+			// the same document from a source that fails part-way with something other than io.EOF:
+			// an error, not a shortened (and unverifiable) document
+			in := core.MustUnHex(a[0])
+			for _, cut := range []int{len(in) / 3, len(in) * 3 / 4} {
+				var krp *openpgp.EntityList
+				kr := readKeyring(a[2])
+				if a[1] == "kr" {
+					krp = &kr
+				}
+				r, err := control.NewParagraphReader(io.MultiReader(strings.NewReader(in[:cut]), iotest.ErrReader(errInjected)), krp)
+				if err == nil {
+					_, err = r.All()
+				}
+				if err == nil {
+					return fmt.Sprintf("FAIL the source failed after %d of %d bytes and the signed document was read without an error", cut, len(in))
+				}
 			}
 		case "reject":
 			if res != "err" {
